@@ -73,6 +73,7 @@ bool run_meta(Ctx& k, const MT& a, const std::string& tag)
         VL vy = a.create_vector_l(); fill_meta<DT, IT>(vy, k.y); fill_meta<DT, IT>(vl, k.r0);
         a.apply(vl, vr, vy, alpha); got = read_meta<DT, IT>(vl, k.ad, exact);
         bool e2 = true; if(read_meta<DT, IT>(vy, 1, e2) != k.y) return k.fail(tag + "/meta: operand y modified");
+        vl.format(DT(77)); if(read_meta<DT, IT>(vy, 1, e2) != k.y || read_meta<DT, IT>(vr, 1, e2) != k.x) return k.fail(tag + "/meta: operand modified by overwriting the result afterwards (shared memory)");
       }
       bool e3 = true; if(read_meta<DT, IT>(vr, 1, e3) != k.x) return k.fail(tag + "/meta: operand x modified");
     }
@@ -86,6 +87,7 @@ bool run_meta(Ctx& k, const MT& a, const std::string& tag)
         VR vy = a.create_vector_r(); fill_meta<DT, IT>(vy, k.y); fill_meta<DT, IT>(vr, k.r0);
         a.apply_transposed(vr, vl, vy, alpha); got = read_meta<DT, IT>(vr, k.ad, exact);
         bool e2 = true; if(read_meta<DT, IT>(vy, 1, e2) != k.y) return k.fail(tag + "/meta: operand y modified");
+        vr.format(DT(77)); if(read_meta<DT, IT>(vy, 1, e2) != k.y || read_meta<DT, IT>(vl, 1, e2) != k.x) return k.fail(tag + "/meta: operand modified by overwriting the result afterwards (shared memory)");
       }
       bool e3 = true; if(read_meta<DT, IT>(vl, 1, e3) != k.x) return k.fail(tag + "/meta: operand x modified");
     }
@@ -116,6 +118,7 @@ bool run_meta(Ctx& k, const MT& a, const std::string& tag)
       if constexpr (FLAT == 1) { if(transposed) a.apply_transposed(vr, vx, vy, alpha); else a.apply(vr, vx, vy, alpha); } else a.apply(vr, vx, vy, alpha);
       got = read_pod(vr, k.ad, exact);
       bool e2 = true; if(read_pod(vy, 1, e2) != k.y) return k.fail(tag + "/flat: operand y modified");
+      vr.format(DT(77)); if(read_pod(vy, 1, e2) != k.y || read_pod(vx, 1, e2) != k.x) return k.fail(tag + "/flat: operand modified by overwriting the result afterwards (shared memory)");
     }
     bool e3 = true; if(read_pod(vx, 1, e3) != k.x) return k.fail(tag + "/flat: operand x modified");
     if(!exact) return k.fail(tag + "/flat: result not on the exact domain " + vs(got));
